@@ -278,6 +278,16 @@ pub fn oracle(ctx: &mut Ctx) {
                 }
             }
         }
+        // the same call with alpha optimisation on images that have an alpha channel: the standard strategies are
+        // compared with the model byte for byte (rows rewritten against the previous rewritten row)
+        if (img.ct == 4 || img.ct == 6) && strat <= 4 {
+            if let Some(fa) = catch(|| oxi.filter_image(rf(strat), true)) {
+                ctx.line(&format!("filter_image_alpha {} {}", strat, img.to_line()), &format!("ok {}", hex(&fa)));
+                st.count("filter_image_alpha");
+            } else {
+                st.fail("panic", format!("filter_image({strat}, alpha) panicked"), replay.clone());
+            }
+        }
         if !ok {
             st.fail(
                 "roundtrip",
